@@ -1,3 +1,4 @@
+mod ast;
 mod codec;
 mod drive;
 mod http;
@@ -35,6 +36,7 @@ fn main() {
   };
   match id {
     "C02" => drive::c02::check(Ctx::new(id, &tier, "exploration"), replay),
+    "C06" => drive::c06::check(Ctx::new(id, &tier, "exploration"), replay),
     "C07" => drive::c07::check(Ctx::new(id, &tier, "exploration"), replay),
     "C09" => drive::c09::check(Ctx::new(id, &tier, "model_checking"), replay),
     "C16" => drive::c16::check(Ctx::new(id, &tier, "model_checking"), replay),
